@@ -796,6 +796,10 @@ func processExtensions(dict map[string]any, p tree.Path, extensions map[string]a
 		}
 	}
 	for name, val := range extras {
+		if name == types.SecretConfigXValue {
+			// private carrier of a secret's resolved value (see secretConfigDecoderHook): never a caller's extension
+			continue
+		}
 		if typ, ok := extensions[name]; ok {
 			target := reflect.New(reflect.TypeOf(typ)).Elem().Interface()
 			err = Transform(val, &target)
